@@ -95,6 +95,11 @@ def check_cases(chk, cases):
             chk.fail("resample draws from the population", case, "generator.choice was not called", {**sig, "clause": "nochoice"})
             continue
         ch = rng.choices[-1]
+        if not ch.get("replace", True) or ch.get("a") != c["n"]:
+            chk.fail("selection probability is the normalised incremental weight", case,
+                     f"the generator was asked for draws over {ch.get('a')} items with replace={ch.get('replace')}: every new particle must be drawn "
+                     f"independently from all {c['n']} particles with its weight as probability", {**sig, "clause": "iid_draws"})
+            continue
         p, idx = ch["p"], np.asarray(ch["idx"]).reshape(-1)
         n_req = c["n"] if c["n_out"] is None else c["n_out"]
         eps = 2.0 ** -52 if c["width"] == "f64" else 2.0 ** -23
